@@ -20,6 +20,16 @@ def shards(bindir, binname, prop, seed, n, base_args, timeout, per_shard_args=No
     return jobs
 
 
+def fuzz_job(prop, target, driver, seed, seconds, workers=4):
+    """Thorough tier: a coverage-guided session (libFuzzer through cargo-fuzz, no sanitizer) whose input bytes drive the
+    driver's own case generator and whose executions are judged by the driver's own oracles (tools/fuzz_job.py)."""
+    argv = ["python3", os.path.join(VERIF, "tools", "fuzz_job.py"), "--target", target, "--driver", driver, "--property", prop,
+            "--seconds", str(seconds), "--workers", str(workers), "--seed", str(seed), "--out", "{out}"]
+    j = Job("%s-fuzz-%s" % (prop, target), argv, seconds + 1200, weight=workers)
+    j.extra_bins = [driver]
+    return j
+
+
 # ---------------------------------------------------------------------------------------------------------
 META = {}
 PLAN = {}
@@ -53,7 +63,7 @@ meta("C01", level="exploration",
 def _c01(bindir, tier, seed):
     if tier == QUICK:
         return shards(bindir, "fmt_driver", "C01", seed, NCPU, ["--mode", "c01", "--cases", "4000"], 600)
-    return shards(bindir, "fmt_driver", "C01", seed, NCPU, ["--mode", "c01", "--cases", "60000"], 1800)
+    return shards(bindir, "fmt_driver", "C01", seed, NCPU, ["--mode", "c01", "--cases", "60000"], 1800) + [fuzz_job("C01", "fz_fmt", "fmt_driver", seed, 120, 8)]
 
 
 # ---- C02 ----------------------------------------------------------------------------------------------
@@ -88,6 +98,7 @@ def _c02(bindir, tier, seed):
             a = lo + i * step
             b = hi if i == n - 1 else a + step - 1
             jobs.append(Job("C02-sweep-%s-%d" % (ty, i), [B(bindir, "fmt_driver"), "--mode", "c02-sweep", "--type", ty, "--lo", str(a), "--hi", str(b), "--out", "{out}"], 3600))
+    jobs.append(fuzz_job("C02", "fz_fmt", "fmt_driver", seed, 120, 8))
     return jobs
 
 
@@ -108,7 +119,7 @@ meta("C03", level="fault_enumeration",
 def _c03(bindir, tier, seed):
     if tier == QUICK:
         return shards(bindir, "fmt_driver", "C03", seed, NCPU, ["--mode", "c03", "--maxlen", "7", "--cases", "3000"], 600)
-    return shards(bindir, "fmt_driver", "C03", seed, NCPU, ["--mode", "c03", "--maxlen", "10", "--cases", "20000"], 1800)
+    return shards(bindir, "fmt_driver", "C03", seed, NCPU, ["--mode", "c03", "--maxlen", "10", "--cases", "20000"], 1800) + [fuzz_job("C03", "fz_fmt", "fmt_driver", seed, 120, 8)]
 
 
 # ---- C04 ----------------------------------------------------------------------------------------------
@@ -126,7 +137,7 @@ meta("C04", level="exploration",
 def _c04(bindir, tier, seed):
     if tier == QUICK:
         return shards(bindir, "fmt_driver", "C04", seed, NCPU, ["--mode", "c04", "--cases", "6000"], 600)
-    return shards(bindir, "fmt_driver", "C04", seed, NCPU, ["--mode", "c04", "--cases", "60000"], 1800)
+    return shards(bindir, "fmt_driver", "C04", seed, NCPU, ["--mode", "c04", "--cases", "60000"], 1800) + [fuzz_job("C04", "fz_fmt", "fmt_driver", seed, 120, 8)]
 
 
 # ---- C05 / C06 / C19 (fault-free framing) and C07 (framing under injected write failures) ---------------
@@ -162,6 +173,9 @@ def frame_jobs(bindir, prop, tier, seed, faults):
         jobs += shards(bindir, "frame_driver", prop + "-delegate", seed, 8, base + ["--mode", "delegate", "--cases", str(dele)], 3000)
     # W3/W4: the buffered UDP / Unix sinks on real sockets, observed at the interposed sendto
     jobs += shards(bindir, "sock_driver", prop + "-sockets", seed, 4, ["--property", prop, "--mode", "buffered", "--cases", "800" if tier == QUICK else "5000"], 3000)
+    if tier != QUICK and (faults or prop != "C06"):
+        # (C06 builds its job list from two calls: the session is added once, by the fault-injected half)
+        jobs.append(fuzz_job(prop, "fz_frame", "frame_driver", seed, 90, 8))
     return jobs
 
 
@@ -568,6 +582,8 @@ def _c20(bindir, tier, seed):
     jobs = []
     for area, n, cases_q, cases_t in (("format", 8, 30, 1500), ("writer", 3, 20000, 400000), ("sinks", 2, 1500, 40000), ("queue", 2, 1500, 30000), ("misc", 1, 200, 2000)):
         jobs += shards(bindir, "hostile_driver", "C20-" + area, seed, n, ["--area", area, "--cases", str(cases_q if q else cases_t)], 3400)
+    if not q:
+        jobs.append(fuzz_job("C20", "fz_hostile", "hostile_driver", seed, 180, 8))
     return jobs
 
 
